@@ -362,15 +362,21 @@ def cluster_check(args, pid, judge_queries, topos, quick_n, thorough_n, text, no
             # (M) the replication design, exhaustively for a small instance
             tabs = cluster_tables(variant=0)
             menu = [[point(1, 1, 1, vs=("w", "x")), point(2, 2, 2, vs=("w",)), point(3, 3, 4, vs=("w", "x"))]]
-            r = cluster_mc((1, 2, 1) if quick else (1, 2, 2), tabs, menu if not quick else menu, os.path.join(work, "mc"),
-                           max_faults=2, timeout=900 if quick else 3400)
-            if r.violated:
-                V.notes.append("model: %s violated in spec/Cluster.tla" % r.violated)
-            elif not r.ok:
-                open(os.path.join(common.SCRATCH_ROOT, "last_tlc_failure.out"), "w").write(r.out)
-                raise InfraError("cluster model checking did not finish:\n" + r.out[-2000:])
-            cov["states"], cov["transitions"] = r.distinct, r.generated
-            print("[%s] model checking done at %.1fs: %d distinct states" % (pid, time.time() - t0, r.distinct), flush=True)
+            # bounds fitted to measured state counts: (1,2,1) x 3 entries x 2 faults 109 k states (9 s), x 4 faults 539 k (83 s);
+            # two followers per partition x 2 entries x 2 faults 9.8 M (16 min); x 3 entries does not finish in an hour
+            jobs = [((1, 2, 1), menu, 2, 900)] if quick else [((1, 2, 1), menu, 4, 1800), ((1, 2, 2), [menu[0][:2]], 2, 3400)]
+            cov["states"] = cov["transitions"] = 0
+            for ji, (mtopo, mmenu, mfaults, mto) in enumerate(jobs):
+                r = cluster_mc(mtopo, tabs, mmenu, os.path.join(work, "mc%d" % ji), max_faults=mfaults, timeout=mto)
+                if r.violated:
+                    V.notes.append("model: %s violated in spec/Cluster.tla" % r.violated)
+                elif not r.ok:
+                    open(os.path.join(common.SCRATCH_ROOT, "last_tlc_failure.out"), "w").write(r.out)
+                    raise InfraError("cluster model checking did not finish:\n" + r.out[-2000:])
+                cov["states"] += r.distinct
+                cov["transitions"] += r.generated
+                shutil.rmtree(os.path.join(work, "mc%d" % ji), ignore_errors=True)
+            print("[%s] model checking done at %.1fs: %d distinct states" % (pid, time.time() - t0, cov["states"]), flush=True)
             scenarios = []
             n = quick_n if quick else thorough_n
             per = 6 if quick else 12
@@ -488,6 +494,12 @@ def cluster_check(args, pid, judge_queries, topos, quick_n, thorough_n, text, no
             wire_checks.rpc_follow_part(pid, V, rng, work, quick, rstats)
             cov.update(rstats)
             print("[%s] rpc follow part: %s" % (pid, rstats), flush=True)
+            # (T) the repository's own cluster test (real servers, rpc transport, restarts of
+            # leaders and followers): its hook events against spec/TracePipe.tla
+            import pipe_checks
+            pstats = {}
+            pipe_checks.repo_tests_part(pid, V, "./server/", "TestServers", work, pstats, "servers")
+            cov.update(pstats)
         cov.update({"replayed_behaviours": len(scenarios), "fault_steps": faults,
                     "settle_points_checked": stats["settles"], "converged_states_checked": stats["converged_checked"],
                     "cluster_queries_compared": stats["queries"], "cluster_queries_with_rows": stats["queries_with_rows"],
